@@ -41,14 +41,16 @@ const slowTimeout = 900 * time.Millisecond // below the 1 s retransmission inter
 // ---------------------------------------------------------------- case description (replayable)
 
 type Op struct {
-	K     string   `json:"k"` // start stop itick pq rtick gstop crash restart final
-	S     int      `json:"s,omitempty"`
-	ID    [3]int   `json:"id,omitempty"`
-	Cause uint32   `json:"cause,omitempty"`
-	Cin   uint64   `json:"cin,omitempty"`
-	Cout  uint64   `json:"cout,omitempty"`
-	Dn    [][2]int `json:"dn,omitempty"` // (session, status type) pairs the server drops during the op
-	C     int      `json:"c,omitempty"`  // crash at the c-th crash point inside the op; gstop: 1 mid-drain, 2 after drain, 3 after persist
+	K     string      `json:"k"` // start stop itick pq rtick gstop crash restart final
+	S     int         `json:"s,omitempty"`
+	ID    [3]int      `json:"id,omitempty"`
+	Cause uint32      `json:"cause,omitempty"`
+	Cin   uint64      `json:"cin,omitempty"`
+	Cout  uint64      `json:"cout,omitempty"`
+	Cs    [][3]uint64 `json:"cs,omitempty"` // itick/gstop: (session, in, out) the counter source returns for that session (others: cin/cout)
+	Fe    []int       `json:"fe,omitempty"` // stop/itick/gstop: sessions for which the counter fetcher FAILS during the op
+	Dn    [][2]int    `json:"dn,omitempty"` // (session, status type) pairs the server drops during the op
+	C     int         `json:"c,omitempty"`  // crash at the c-th crash point inside the op; gstop: 1 mid-drain, 2 after drain, 3 after persist
 }
 type Desc struct {
 	MaxRetries int  `json:"maxr"`
@@ -64,6 +66,8 @@ type Cmd struct {
 	Cause   uint32
 	Cin     uint64
 	Cout    uint64
+	Cs      [][3]uint64 // counter source: (session, in, out); sessions not listed read 0,0
+	Fe      []int       // sessions whose counter fetch fails
 	ArmName string
 	ArmK    int
 }
@@ -156,7 +160,8 @@ func workerMain(dir string, port, maxr int, clientTimeout time.Duration) {
 		panic(err)
 	}
 	var am *bng.AccountingManager
-	var cur bng.SessionCounters
+	cur := map[int]bng.SessionCounters{}
+	fail := map[int]bool{}
 	snap := func() Snap {
 		var s Snap
 		if am == nil {
@@ -190,7 +195,13 @@ func workerMain(dir string, port, maxr int, clientTimeout time.Duration) {
 		if c.ArmK > 0 {
 			bng.VerifArmCrash(c.ArmName, c.ArmK)
 		}
-		cur = bng.SessionCounters{InputOctets: c.Cin, OutputOctets: c.Cout}
+		cur, fail = map[int]bng.SessionCounters{}, map[int]bool{}
+		for _, v := range c.Cs {
+			cur[int(v[0])] = bng.SessionCounters{InputOctets: v[1], OutputOctets: v[2], InputPackets: v[1] >> 9, OutputPackets: v[2] >> 9}
+		}
+		for _, s := range c.Fe {
+			fail[s] = true
+		}
 		t0 := time.Now()
 		switch c.C {
 		case "boot":
@@ -202,7 +213,15 @@ func workerMain(dir string, port, maxr int, clientTimeout time.Duration) {
 			if err != nil {
 				panic(err)
 			}
-			am.SetCounterFetcher(func(string) (*bng.SessionCounters, error) { v := cur; return &v, nil })
+			// the counter source of the data plane: per session, and it can fail (entry already gone)
+			am.SetCounterFetcher(func(id string) (*bng.SessionCounters, error) {
+				s := sidOf(id)
+				if fail[s] {
+					return nil, fmt.Errorf("no counters for %s", id)
+				}
+				v := cur[s]
+				return &v, nil
+			})
 			am.VerifStartNoLoops()
 		case "start":
 			if am.StartSession(&bng.AccountingSession{SessionID: sidName(c.S), Username: fmt.Sprintf("u%d", c.ID[0]),
@@ -497,6 +516,31 @@ func cInts(l []int) string {
 	}
 	return vh.List(o)
 }
+
+// csOf: the counter source of an itick/gstop op: sessions 1..maxSess read (cin, cout) unless the
+// op lists its own pair for them.
+const maxSess = 4
+
+func csOf(o Op) [][3]uint64 {
+	var l [][3]uint64
+	for s := 1; s <= maxSess; s++ {
+		v := [3]uint64{uint64(s), o.Cin, o.Cout}
+		for _, x := range o.Cs {
+			if int(x[0]) == s {
+				v = x
+			}
+		}
+		l = append(l, v)
+	}
+	return l
+}
+func cCs(cs [][3]uint64) string {
+	var o []string
+	for _, v := range cs {
+		o = append(o, fmt.Sprintf("(%d, (%d, %d))", v[0], v[1], v[2]))
+	}
+	return vh.List(o)
+}
 func cSess(l []SessInfo) string {
 	var o []string
 	for _, s := range l {
@@ -592,7 +636,16 @@ func runOnce(d Desc, tmp string, strict bool) vh.Case {
 		var opTerm string
 		queues := false // op whose dropped requests must each appear as one new pending record
 		var elapsed int64 = -1
-		cmd := Cmd{S: o.S, ID: o.ID, Cause: o.Cause, Cin: o.Cin, Cout: o.Cout}
+		cmd := Cmd{S: o.S, ID: o.ID, Cause: o.Cause, Cin: o.Cin, Cout: o.Cout, Fe: o.Fe}
+		switch o.K {
+		case "stop":
+			cmd.Cs = [][3]uint64{{uint64(o.S), o.Cin, o.Cout}}
+		case "itick", "gstop":
+			cmd.Cs = csOf(o)
+		}
+		if len(o.Fe) > 0 {
+			tags["fetch-fails-in:"+o.K] = true
+		}
 		if o.C > 0 {
 			cmd.ArmName, cmd.ArmK = "*", o.C
 			tags["crash-in:"+o.K] = true
@@ -627,7 +680,7 @@ func runOnce(d Desc, tmp string, strict bool) vh.Case {
 		case "stop":
 			exec1("stop")
 			queues = true
-			opTerm = fmt.Sprintf("Stop %d %d %d %d %s %d", o.S, o.Cause, o.Cin, o.Cout, cDn(o.Dn), o.C)
+			opTerm = fmt.Sprintf("Stop %d %d %d %d %s %s %d", o.S, o.Cause, o.Cin, o.Cout, cInts(o.Fe), cDn(o.Dn), o.C)
 		case "itick":
 			exec1("itick")
 			queues = true
@@ -801,7 +854,7 @@ func runOnce(d Desc, tmp string, strict bool) vh.Case {
 			for _, e := range evs {
 				order = append(order, e.W.S)
 			}
-			opTerm = fmt.Sprintf("InterimTick %d %d %s %s %d", o.Cin, o.Cout, cDn(o.Dn), cInts(order), o.C)
+			opTerm = fmt.Sprintf("InterimTick %s %s %s %s %d", cCs(csOf(o)), cInts(o.Fe), cDn(o.Dn), cInts(order), o.C)
 		case "rtick":
 			used := map[int]bool{}
 			var order []int
@@ -834,7 +887,7 @@ func runOnce(d Desc, tmp string, strict bool) vh.Case {
 					qorder = append(qorder, p.S)
 				}
 			}
-			opTerm = fmt.Sprintf("GracefulStop %d %d %s %s %d", o.Cin, o.Cout, cDn(o.Dn), cInts(qorder), o.C)
+			opTerm = fmt.Sprintf("GracefulStop %s %s %s %s %d", cCs(csOf(o)), cInts(o.Fe), cDn(o.Dn), cInts(qorder), o.C)
 		case "restart":
 			pos := map[string]int{}
 			for i, p := range prevDisk.PJson {
@@ -967,6 +1020,7 @@ func main() {
 	enum := genEnumerated(cfg.Thorough())
 	vh.Emit(cfg, "enum", header, footer, runAll(cfg, enum, par), map[string]interface{}{"exhaustive": true})
 	vh.Emit(cfg, "orphans", header, footer, runAll(cfg, genOrphans(cfg.Thorough()), par), map[string]interface{}{"exhaustive": true})
+	vh.Emit(cfg, "counters", header, footer, runAll(cfg, genCounters(cfg.Thorough()), par), map[string]interface{}{"exhaustive": true})
 	guarded := genRandom(r.Fork(), cfg.Thorough(), true)
 	vh.Emit(cfg, "guarded", header, footer, runAll(cfg, guarded, par), nil)
 	random := genRandom(r.Fork(), cfg.Thorough(), false)
